@@ -79,11 +79,21 @@ func (concEngine) Gen(prop string, seed uint64, tier string) *Spec {
 	focusName := concNames[rng.Intn(len(concNames))]
 	focusName2 := concNames[rng.Intn(len(concNames))]
 	focus := rng.Chance(0.7)
-	if prop != "C14" && prop != "C07" && rng.Chance(0.05) {
+	if prop != "C14" && prop != "C07" && rng.Chance(0.08) {
 		// directory moves: concurrent renames of the shared directories into each
 		// other's subtrees (the tree must stay a tree whatever the interleaving)
 		spec.Knobs["dirmoves"] = 1
 		focus = false
+		if rng.Chance(0.4) {
+			// kind flip: one client replaces the file d1/a by a directory (removes it,
+			// then renames d1/sub to that name or makes a directory there) while another
+			// client, held at one of its lock acquisitions, renames / removes / looks up
+			// that name: whatever a request decided from the kind of the object it saw
+			// first must be decided again when it acts
+			spec.Knobs["flip"] = 1
+			spec.Knobs["direct_task"] = 1
+			spec.Knobs["direct_n"] = int64(rng.Intn(4))
+		}
 	} else if prop != "C14" && prop != "C01" && prop != "C07" && rng.Chance(0.08) {
 		// two large files in the root, and most operations on them by handle and by
 		// name: two background shrinkers at once, truncations, removals and renames of
@@ -308,6 +318,37 @@ func (concEngine) Gen(prop string, seed uint64, tier string) *Spec {
 				}
 			}
 			ops = append(ops, op)
+		}
+		if spec.Knobs["flip"] == 1 && c < 2 {
+			var script []Op
+			if c == 0 {
+				script = []Op{{K: "remove", H: slotD1, N: "a"}, {K: "rename", H: slotD1, N: "sub", H2: slotD1, N2: "a"}}
+				if rng.Chance(0.3) {
+					script[1] = Op{K: "mkdir", H: slotD1, N: "a"}
+				}
+			} else {
+				script = []Op{[]Op{
+					{K: "rename", H: slotD1, N: "a", H2: slotSub, N2: "x"},
+					{K: "rename", H: slotD1, N: "a", H2: slotSub, N2: "x"},
+					{K: "rename", H: slotD1, N: "a", H2: slotD2, N2: "x"},
+					{K: "rename", H: slotD2, N: "b", H2: slotD1, N2: "a"},
+					{K: "remove", H: slotD1, N: "a"},
+					{K: "rmdir", H: slotD1, N: "a"},
+					{K: "lookup", H: slotD1, N: "a"},
+				}[rng.Intn(7)]}
+			}
+			if len(ops) > 2 {
+				ops = ops[:2]
+			}
+			for i := range ops {
+				if ops[i].H >= 0 {
+					ops[i].H += len(script)
+				}
+				if ops[i].K == "rename" && ops[i].H2 >= 0 {
+					ops[i].H2 += len(script)
+				}
+			}
+			ops = append(script, ops...)
 		}
 		spec.Clients = append(spec.Clients, ops)
 	}
